@@ -212,6 +212,69 @@ def semantic_cases(mod, sem_inputs, rnd, nvec):
     return terms, meta, '[%s]' % ';\n'.join(evmaps.get(i, '[]') for i in range(n)), stats
 
 
+def functionalise_tie(run, rnd, quick):
+    """Translation validation for coq/Fn: every generated program is converted with the real pipeline; the annotated tree
+    control_flow.transform saw (reads / writes, LIVE_VARS_IN of the real analyses) and the locals of every generated body
+    function (symtable of the generated code) are exported and Coq evaluates the side conditions of functionalise_correct.
+    -> (message or None, programs whose conditions fail)"""
+    from export import fn as fn_mod
+    n = 120 if quick else 1500
+    o1 = progs.Opts(loop_else=False, reads='safe', try_=False, with_=False, raise_=False, max_stmts=14, fresh_for_targets=True,
+                    nested_def=False)
+    o2 = progs.Opts(loop_else=False, reads='safe', try_=False, with_=False, raise_=False, max_stmts=16, max_depth=5,
+                    fresh_for_targets=True, nested_def=False, only={'if', 'while', 'for', 'break', 'continue', 'return', 'expr', 'aug', 'tuple'})
+    srcs = [progs.gen_function(rnd, rnd.choice([o1, o2])) for _ in range(n)]
+    cdir = os.path.join(vlib.ROOT, 'corpus', 'C01fn')
+    if os.path.isdir(cdir):
+        srcs = [open(os.path.join(cdir, f)).read() for f in sorted(os.listdir(cdir)) if f.endswith('.py')] + srcs
+    mod = convrun.load_module(srcs, PRELUDE)
+    cases, meta, unsupported = [], [], {}
+    for i, src in enumerate(srcs):
+        with fn_mod.Capture() as cap:
+            try:
+                convert(getattr(mod, 'f%d' % i), False, None)
+            except Exception as e:   # noqa
+                cap.err = cap.err or 'conversion failed: %s' % type(e).__name__
+        if cap.tree is None or cap.err:
+            k = (cap.err or 'not reached').split(':')[0][:40]
+            unsupported[k] = unsupported.get(k, 0) + 1
+            continue
+        try:
+            term, table = fn_mod.to_coq(cap.tree, cap.L)
+        except fn_mod.Unsupported as e:
+            unsupported[str(e)[:40]] = unsupported.get(str(e)[:40], 0) + 1
+            continue
+        cases.append('(%d, %s)' % (len(meta), term))
+        meta.append((src, table))
+        if re.search(r'\b(while|for)\b', src) and ' if ' in src:
+            run.nontriv('fn:' + src)
+    run.count(len(cases))
+    run.extra['functionalise_programs_checked'] = len(cases)
+    run.extra['functionalise_programs_outside_the_model'] = sum(unsupported.values())
+    run.extra['functionalise_outside_reasons'] = unsupported
+    if len(cases) < n // 4:
+        return 'too few programs could be exported to the functionalisation model: %r' % unsupported, []
+    body = ['From Coq Require Import List Arith Bool.', 'Import ListNotations.',
+            'Require Import MV.Fn.FnLang MV.Fn.FnCheck.',
+            'Definition cases : list fcase := [', ';\n'.join(cases), '].',
+            'Eval vm_compute in failing_fcases cases.',
+            'Eval vm_compute in (map (fun c => (fst c, why_block (snd c) [])) (filter (fun c => negb (chk_block (snd c) [])) cases), tt).']
+    rc, out = vlib.coq_eval('C01', 'functionalise', '\n'.join(body), timeout=600)
+    bad = vlib.parse_coq_list_of_nat(out) if rc == 0 else None
+    if bad is None:
+        return 'functionalisation conditions: model evaluation failed: ' + out[-400:], []
+    if bad:
+        src, table = meta[bad[0]]
+        inv = {v_: k_ for k_, v_ in table.items()}
+        why = re.findall(r'\((\d+),\s*(\d+),\s*(\d+)\)', out.split('tt)')[0].split(']')[-1] if False else out)
+        detail = sorted({('statement %s: %s %s' % (a, 'live set not closed at' if b == '1' else 'local of the body function is live:', inv.get(int(c), c)))
+                         for a, b, c in why})[:6]
+        return ('the side conditions of functionalise_correct fail on %d programs (a variable that is live is local to a generated '
+                'body function, or the live sets are not closed), e.g. %s in\n%s' % (len(bad), '; '.join(detail), src),
+                [meta[i][0] for i in bad])
+    return None, []
+
+
 def lowering_tie(run, rnd, quick):
     """Model passes (coq/Lower/Passes.v) vs the real break / continue passes: the real pipeline is run with
     both passes wrapped; input and output trees are exported to the lowering language and Coq checks that
@@ -368,7 +431,7 @@ def check(run):
         tie_msg = str(e)
         run.note(tie_msg)
     if tie_ok:
-        vlib.standard_proof_step(run, ['Lower/PassesCheck.vo', 'Lower/Compose.vo', 'Lower/Source.vo'])
+        vlib.standard_proof_step(run, ['Lower/PassesCheck.vo', 'Lower/Compose.vo', 'Lower/Source.vo', 'Fn/FnProofs.vo', 'Fn/FnCheck.vo'])
     rnd = random.Random(run.seed * 104729 + 1)
     lower_bad, lower_programs = None, []
     nprog = 120 if quick else 1500
@@ -415,6 +478,8 @@ def check(run):
     try:
         if tie_ok:
             lower_bad, lower_programs = lowering_tie(run, rnd, quick)
+            if not lower_bad:
+                lower_bad, lower_programs = functionalise_tie(run, rnd, quick)
         mod = convrun.load_module(allsrc, PRELUDE)
         nconv = 0
         for i, src in enumerate(allsrc):
@@ -499,8 +564,9 @@ def check(run):
                            'found_by': 'targeted search on programs where the lowering-pass model and the real pass disagree'})
             lower_bad = None
     if not failures and lower_bad:
-        run.violation('correspondence between the lowering-pass models and break_statements.py / continue_statements.py broke',
-                      {'broken_correspondence': lower_bad, 'theorems_no_longer_applicable': ['break_lowering_correct', 'continue_lowering_correct'],
+        run.violation('correspondence between the models of the lowering / functionalisation passes and the code broke: ' + lower_bad[:300],
+                      {'broken_correspondence': lower_bad, 'theorems_no_longer_applicable': ['break_lowering_correct', 'continue_lowering_correct',
+                                                                                             'return_lowering_correct', 'lowering_correct', 'functionalise_correct'],
                        'searched': 'differential oracle found no failing input'}, found_input=False)
     run.assumptions += ['CPython 3.12 executes the generated module as the differential oracle',
                         'composition of all passes is validated by differential testing, proved only for the modelled factors (DESIGN.md 4/C01)']
